@@ -22,6 +22,7 @@ var hqMu sync.Mutex
 type cand struct {
 	name string
 	user bool
+	slow bool // worth a long solver timeout (derived from an ensures clause)
 	eval func(s *State, it Term) Term
 }
 
@@ -1014,7 +1015,7 @@ func (fx *FuncCtx) execLoop(pre *State, ld *loopDesc) Flow {
 				l := l
 				ei := ei
 				mk := func(name string, lo, hi func(c Term, env *specEnv) ast.Expr) {
-					cands = append(cands, cand{name: fmt.Sprintf("ensures%d@%s:%s", ei+1, l.obj.Name(), name), eval: func(s *State, it Term) Term {
+					cands = append(cands, cand{name: fmt.Sprintf("ensures%d@%s:%s", ei+1, l.obj.Name(), name), slow: true, eval: func(s *State, it Term) Term {
 						c, _ := getInt(s, l.obj)
 						env := &specEnv{fx: fx, cur: s, old: fx.entry, binds: map[string]sval{"__c": {c, nil}}, entryParams: true, pos: ld.node.Pos()}
 						q := &ast.CallExpr{Fun: call.Fun, Args: []ast.Expr{call.Args[0], lo(c, env), hi(c, env), call.Args[3]}}
@@ -1022,6 +1023,22 @@ func (fx *FuncCtx) execLoop(pre *State, ld *loopDesc) Flow {
 					}})
 				}
 				cIdent := ast.NewIdent("__c")
+				// "not yet processed cells are unchanged": for every old(X) in the body, X == old(X) on the other side of the counter
+				for oi, ox := range oldSubterms(call.Args[3]) {
+					ox := ox
+					oi := oi
+					same := &ast.CallExpr{Fun: ast.NewIdent("same"), Args: []ast.Expr{ox, &ast.CallExpr{Fun: ast.NewIdent("old"), Args: []ast.Expr{ox}}}}
+					mkU := func(name string, lo, hi ast.Expr) {
+						cands = append(cands, cand{name: fmt.Sprintf("ensures%d@%s:unchanged%d-%s", ei+1, l.obj.Name(), oi, name), slow: true, eval: func(s *State, it Term) Term {
+							c, _ := getInt(s, l.obj)
+							env := &specEnv{fx: fx, cur: s, old: fx.entry, binds: map[string]sval{"__c": {c, nil}}, entryParams: true, pos: ld.node.Pos()}
+							q := &ast.CallExpr{Fun: call.Fun, Args: []ast.Expr{call.Args[0], lo, hi, same}}
+							return fx.specBool(env, q)
+						}})
+					}
+					mkU("suffix", cIdent, call.Args[2])
+					mkU("prefix", call.Args[1], &ast.BinaryExpr{X: cIdent, Op: token.ADD, Y: &ast.BasicLit{Kind: token.INT, Value: "1"}})
+				}
 				mk("prefix", func(c Term, e *specEnv) ast.Expr { return call.Args[1] }, func(c Term, e *specEnv) ast.Expr { return cIdent })
 				mk("suffix", func(c Term, e *specEnv) ast.Expr {
 					return &ast.BinaryExpr{X: cIdent, Op: token.ADD, Y: &ast.BasicLit{Kind: token.INT, Value: "1"}}
@@ -1063,7 +1080,7 @@ func (fx *FuncCtx) execLoop(pre *State, ld *loopDesc) Flow {
 			}
 			goals = append(goals, g)
 			idxs = append(idxs, i)
-			slow = append(slow, c.user)
+			slow = append(slow, c.user || c.slow)
 		}
 		res := fx.proveAll(pre.hypTerms(), goals, timeout, slow)
 		for j, ok := range res {
@@ -1104,7 +1121,7 @@ func (fx *FuncCtx) execLoop(pre *State, ld *loopDesc) Flow {
 				}
 				goals = append(goals, g)
 				idxs = append(idxs, i)
-				slow = append(slow, c.user)
+				slow = append(slow, c.user || c.slow)
 			}
 			res := fx.proveAll(end.hypTerms(), goals, timeout, slow)
 			for j, ok := range res {
@@ -1258,7 +1275,7 @@ func (fx *FuncCtx) proveAll(hyps []Term, goals []Term, timeoutMs int, slow ...[]
 			} else {
 				tmo := timeoutMs
 				if slowMask != nil && i < len(slowMask) && slowMask[i] {
-					tmo = timeoutMs * 5
+					tmo = timeoutMs * 12
 				}
 				r := solve(q, tmo, false)
 				res[i] = r.Status == "unsat"
@@ -1699,4 +1716,26 @@ func isSliceChain(e ast.Expr) bool {
 			return false
 		}
 	}
+}
+
+// oldSubterms returns the arguments of old(...) calls inside e that read memory (index expressions).
+func oldSubterms(e ast.Expr) []ast.Expr {
+	var out []ast.Expr
+	seen := map[string]bool{}
+	ast.Inspect(e, func(n ast.Node) bool {
+		if c, ok := n.(*ast.CallExpr); ok {
+			if id, ok := c.Fun.(*ast.Ident); ok && id.Name == "old" && len(c.Args) == 1 {
+				if _, isIdx := c.Args[0].(*ast.IndexExpr); isIdx {
+					k := types.ExprString(c.Args[0])
+					if !seen[k] {
+						seen[k] = true
+						out = append(out, c.Args[0])
+					}
+				}
+				return false
+			}
+		}
+		return true
+	})
+	return out
 }
